@@ -7,7 +7,8 @@ Each mutant is one small edit that still compiles (and, with --build, is
 confirmed to compile and pass `make check`). The checker must exit 1 and name
 the expected rule; neutral edits must keep it at exit 0. Scratch copies are
 removed afterwards."""
-import os, sys, shutil, subprocess, tempfile, json, importlib.util
+import os, sys, shutil, subprocess, tempfile, json, importlib.util, re
+ANSI = re.compile(r'\x1b\[[0-9;]*m')
 HERE = os.path.dirname(os.path.abspath(__file__))
 VERIF = os.path.dirname(HERE)
 REPO = '/repo'
@@ -42,7 +43,7 @@ def run_one(m, build):
             open(p, 'w').write(s.replace(old, new))
         if build:
             r = subprocess.run(['make', '-C', d, 'check'], capture_output=True, text=True, timeout=600)
-            out = r.stdout + r.stderr
+            out = ANSI.sub('', r.stdout + r.stderr)
             if r.returncode != 0 or 'Failed    0 |' not in out:
                 return 'NOBUILD', 'mutant does not build or fails the suite'
         env = dict(os.environ, CV_REPO=d, CV_SELFTEST='1')
